@@ -475,3 +475,25 @@ def translate_segment(repo, relpath, qualname, name, first, last, outputs, input
         body = body[:k] + "(" + body[k + 1:].rstrip()[:-1].replace(";", ",") + ")"
     sig = " ".join(["(%s : bool)" % b for b in bools] + ["(%s : R)" % i for i in inputs] + ["(%s : R)" % v for v in tr.opaque_exprs.values()])
     return "Definition %s %s %s : %s :=\n  %s.\n" % (name, extra_sig, sig, " * ".join(["R"] * len(outputs)), body)
+
+
+def translate_assigned_list(repo, relpath, qualname, name, target, nelts, opaque_exprs, inputs=()):
+    """The ONLY assignment `target = [e1, ..., e_nelts]` inside [qualname] whose right-hand side is a list display of [nelts]
+    elements that all translate (other assignments to the same name, e.g. in another branch, are skipped when they do not):
+    read as `name <inputs> <opaque> : list R`."""
+    with open(os.path.join(repo, relpath)) as f:
+        tree = ast.parse(f.read())
+    fn = find_function(tree, qualname)
+    cands = [n for n in ast.walk(fn) if isinstance(n, ast.Assign) and len(n.targets) == 1 and isinstance(n.targets[0], ast.Name)
+             and n.targets[0].id == target and isinstance(n.value, ast.List) and len(n.value.elts) == nelts]
+    done = []
+    for c in cands:
+        tr = Tr(opaque_exprs=opaque_exprs)
+        try:
+            done.append("[" + "; ".join(tr.ex(x, frozenset(inputs)) for x in c.value.elts) + "]")
+        except Unsupported:
+            continue
+    if len(done) != 1:
+        raise Unsupported("%d translatable list assignments to %s in %s" % (len(done), target, qualname))
+    sig = " ".join(["(%s : R)" % i for i in inputs] + ["(%s : R)" % v for v in opaque_exprs.values()])
+    return "Definition %s %s : list R :=\n  %s.\n" % (name, sig, done[0])
